@@ -417,7 +417,15 @@ func (tp *ethTxPool) addWaiting(tx *etypes.Transaction, address common.Address) 
 	}
 	if waitingTxCount >= tp.waitingLimit {
 		// waiting queue is full, try replace or return err
-		if tp.waiting[address] == nil || !tp.waiting[address].TryReplace(tx) {
+		if tp.waiting[address] == nil {
+			return errTxPoolWaitingQueueIsFull
+		}
+		replaced, evicted := tp.waiting[address].TryReplace(tx)
+		if evicted != nil {
+			// the evicted tx is no longer queued: it must not stay in the lookup set
+			delete(tp.all, evicted.Hash())
+		}
+		if !replaced {
 			return errTxPoolWaitingQueueIsFull
 		}
 	} else {
